@@ -22,14 +22,17 @@ CLAIMED = {
         "technique": "Coq proof (all_calls over a free-monad model, all responses) + trace-replay correspondence + runtime monitor",
     },
     "C11": {
-        "text": "Machine-checked descriptor-balance theorem (for all kernel answers: never closes a descriptor it did not open, "
-                "returns owning exactly the returned fd) for all procfs operations, reopen, the procfs constructors, the "
-                "openat2 backend and every Root operation over any resolver meeting the lookup contract; soundness of the "
-                "judgement on every trace the model accepts. Runtime: /proc/self/fd listing before/after every call incl. "
-                "injected faults and fd exhaustion, Rust and C API; recorded traces replayed and balance-checked in Coq.",
-        "note": COMMON_NOTE + "Partial: the emulated (O_PATH) walk's Rc bookkeeping is not yet covered by a theorem (its "
-                "traces are replayed through the model and balance-checked by trace_balance on every run).",
-        "technique": "Coq proof (balance judgement over free-monad model, all responses) + trace replay + fd-table oracle under fault injection",
+        "text": "Machine-checked descriptor-balance theorem (for all kernel answers that never hand out a descriptor number the operation "
+                "is holding: never closes a descriptor it did not open, returns owning exactly the returned fd) for all procfs operations, "
+                "reopen, the procfs constructors, BOTH resolver backends -- the openat2 one with its retry loops, the emulated one with the "
+                "Rc reference counting of its walk state and symlink stack (counting invariant: refcount = number of holders, closed exactly "
+                "when the last holder lets go) -- and hence every Root operation on every backend with no contract assumed; soundness of the "
+                "judgement on every fresh trace the model accepts; read on the static kernel: the table afterwards is the old one plus the "
+                "returned descriptor. Runtime: /proc/self/fd listing before/after every call incl. injected faults and fd exhaustion, Rust and "
+                "C API; recorded traces replayed, balance-checked and freshness-checked in Coq.",
+        "note": COMMON_NOTE + "The freshness premise (a kernel does not return a number that is in use) is evaluated on every recorded trace "
+                "(trace_fresh). Rc handles are modelled as counts keyed by descriptor number.",
+        "technique": "Coq proof (balance judgement over free-monad model, all fresh responses; counting invariant for Rc) + trace replay + fd-table oracle under fault injection",
     },
     "C10": {
         "text": "Machine-checked theorems over all kernel answers (= all fault plans): only two recorded Panic sites are "
@@ -192,7 +195,10 @@ CLAIMED = {
         "text": "Machine-checked: parent_and_name is (in-root resolution of everything before the last '/', last component) for every byte "
                 "string, the name is non-empty and '/'-free and passed on unresolved; a path without a final name reduces the whole operation "
                 "to 'resolve parent, close, InvalidArgument' for every continuation; all calls single-component/no-follow; exact mknod S_IFMT "
-                "decode; the parent resolution equals the kernel's (C01). Runtime: snapshot difference of every successful call = exactly "
+                "decode; the parent resolution equals the kernel's (C01); executed on the static kernel over any well-formed tree, every "
+                "single-entry operation of the emulated backend -- create (dir, file, fifo, device: with the exact mode word, type bits from the "
+                "InodeType alone; symlink; hard link), create_file, remove_file/remove_dir, rename -- arrives at its *at call on (descriptor "
+                "open on the object the in-root walk of the parent ends on, last component), for both parents where there are two. Runtime: snapshot difference of every successful call = exactly "
                 "(raw-openat2 resolution of the parent, final name); final symlinks not followed; create_file's fd is the file under that name.",
         "note": COMMON_NOTE + "The effect of the single *at call itself is the kernel's; equality of the resulting tree is judged by the snapshot oracle.",
         "technique": "Coq proof (path-split theorems for all byte strings, program equivalence) + snapshot differential against raw openat2 + trace replay",
